@@ -197,6 +197,8 @@ func (s *Sched) enabled() []transition {
 		if t.pending.sync != "" {
 			ok := false
 			switch t.pending.sync {
+			case "yield":
+				ok = true // an atomic operation: always possible; the point is that another thread may go first
 			case "wg-wait":
 				ok = s.wg[t.pending.obj] <= 0
 			case "lock":
@@ -334,6 +336,11 @@ func (s *Sched) Run() {
 		}
 		return true
 	}
+	verifshim.YieldHook = func() {
+		if s.cur != nil {
+			s.park(&pendingOp{sync: "yield"})
+		}
+	}
 	verifshim.CloseHook = func(ch interface{}) {
 		m := s.chanOf(ch)
 		if m.closed {
@@ -348,6 +355,7 @@ func (s *Sched) Run() {
 	defer func() {
 		verifshim.SendHook, verifshim.RecvHook, verifshim.SelectHook, verifshim.CloseHook, verifshim.GoHook = nil, nil, nil, nil, nil
 		verifshim.SyncHook = nil
+		verifshim.YieldHook = nil
 		if r := recover(); r != nil {
 			if _, stall := r.(schedStall); stall {
 				s.yield = make(chan struct{}) // the abandoned threads keep their old channel: they can never disturb a later run
